@@ -1,0 +1,38 @@
+//go:build verif
+
+package pilosa
+
+// Exported access for the /verif harness (extra check X02: shard data transfer and
+// schema propagation). No behaviour, only access: every function forwards to the
+// unexported method of the same name.
+
+import (
+	"io"
+)
+
+// VerifTransferWriteTo forwards to fragment.WriteTo (the tar archive sent by
+// /internal/fragment/data).
+func (v *VerifFragment) VerifTransferWriteTo(w io.Writer) (int64, error) { return v.f.WriteTo(w) }
+
+// VerifTransferReadFrom forwards to fragment.ReadFrom (what followResizeInstruction
+// calls on the receiving node).
+func (v *VerifFragment) VerifTransferReadFrom(r io.Reader) (int64, error) { return v.f.ReadFrom(r) }
+
+// VerifTransferMaxRow forwards to fragment.maxRow without a filter.
+func (v *VerifFragment) VerifTransferMaxRow() (rowID, count uint64) { return v.f.maxRow(nil) }
+
+// VerifTransferMinRow forwards to fragment.minRow without a filter.
+func (v *VerifFragment) VerifTransferMinRow() (rowID, count uint64) { return v.f.minRow(nil) }
+
+// VerifTransferHolderFragment returns the holder's local fragment (nil when the node
+// has none), wrapped for reading.
+func VerifTransferHolderFragment(h *Holder, index, field, view string, shard uint64) *VerifFragment {
+	f := h.fragment(index, field, view, shard)
+	if f == nil {
+		return nil
+	}
+	return &VerifFragment{f: f}
+}
+
+// VerifTransferApplySchema forwards to Holder.applySchema.
+func VerifTransferApplySchema(h *Holder, s *Schema) error { return h.applySchema(s) }
